@@ -106,6 +106,9 @@ class Quoter:
 
     def in_slashes(self, val: str) -> bool:
         val = val.strip()
+        if len(val) > 2 and val.startswith("/") and val.endswith("/i"):
+            # a case-insensitive regular expression e.g. /^road/i
+            return True
         return self._in_quotes(val, "/")
 
     def standardise_quotes(self, val: str) -> str:
